@@ -89,3 +89,9 @@ let () =
 let () =
   register "ttxham" (fun r -> let w = rn r in popt (ham2418_dec_word w));
   register "ttxhamenc" (fun r -> let d = rn r in pn (ham2418_word d))
+
+(* C07, styled teletext sources (Model/ConvTtx.v): convttx: destination code, delivered list -> destination bytes *)
+let () =
+  register "convttx" (fun r ->
+    let d = rint r in let ds = rdeliveries r in
+    pres pstr ((match d with 0 -> convert_ttx_srt | 1 -> convert_ttx_vtt | 2 -> convert_ttx_ssa | 3 -> convert_ttx_stl | _ -> convert_ttx_ttml) ds))
